@@ -28,7 +28,7 @@ contract("codemodder.codemods.libcst_transformer.LibcstTransformerPipeline.apply
          params={"self": "BaseTransformerPipeline", "context": "CodemodExecutionContext", "file_context": "FileContext",
                  "results": "list[Result] | None"}, returns="ChangeSet | None",
          modifies=_FC_MOD,
-         exsures=[("OSError", None, "may", ["all(implies(p != file_context.file_path, fs[p] == old(fs)[p]) for p in ANY('Opaque'))"]),
+         exsures=[("OSError", None, "may", ["fs == store(old(fs), file_context.file_path, fs[file_context.file_path])"]),
                   ("ValueError", None, "may", ["fs == old(fs)"])],
          ensures=DYN_APPLY_ENSURES + [
              ("a file that cannot be read, decoded or parsed is left untouched, listed failed, all its findings unfixed",
